@@ -28,7 +28,7 @@ def sh(cmd: str, cwd: str | None = None, timeout: int = 1800) -> tuple[int, str]
 
 def confirm(pid: str, x: str) -> int:
     wt = f"/tmp/seed/{pid}"
-    sd = {"A": "_seed", "B": "_seed", "C": "_seed2", "D": "_seed2", "E": "_seed3", "F": "_seed3", "G": "_seed4", "H": "_seed4", "I": "_seed5", "J": "_seed5", "K": "_seed6", "L": "_seed6", "M": "_seed7", "N": "_seed7", "O": "_seed8", "P": "_seed8", "Q": "_seed9", "R": "_seed9", "S": "_seed10", "T": "_seed10", "U": "_seed11", "V": "_seed11", "W": "_seed13", "X": "_seed13"}.get(x, "_seed12")  # later rounds: agents were told to avoid the earlier changes
+    sd = {"A": "_seed", "B": "_seed", "C": "_seed2", "D": "_seed2", "E": "_seed3", "F": "_seed3", "G": "_seed4", "H": "_seed4", "I": "_seed5", "J": "_seed5", "K": "_seed6", "L": "_seed6", "M": "_seed7", "N": "_seed7", "O": "_seed8", "P": "_seed8", "Q": "_seed9", "R": "_seed9", "S": "_seed10", "T": "_seed10", "U": "_seed11", "V": "_seed11", "W": "_seed13", "X": "_seed13", "Y": "_seed14", "Z": "_seed14"}.get(x, "_seed12")  # later rounds: agents were told to avoid the earlier changes
     patch = f"{wt}/{sd}/patch_{x}.diff"
     demo = f"{wt}/{sd}/demo_{x}.py"
     env = f"PYTHONPATH={wt}/src:{wt} PYTHONDONTWRITEBYTECODE=1"
